@@ -794,3 +794,83 @@ func freshTagPointer(info *types.Info, g *Fn, obj types.Object) bool {
 	})
 	return ok && n > 0
 }
+
+// ---- C12-g: matches read back from the state file are not trusted as decided ----
+
+func init() {
+	register("C12",
+		"C12-g (AST, typed): saveState runs before a new or changed tag has been evaluated, so the matches stored in a state file can be empty or stale after a kill. In New every tag built from a state file starts with Uncertain = all streams; a block that empties a loaded tag's Uncertain must, in the same block, assign its Matches from something computed from the parsed definition (the explicit id list of a mark), never leave the saved matches in place.",
+		func(p *Prog, r *Res) {
+			const rule = "C12-g restored-matches-not-trusted"
+			r.Rule(rule + ": a tag restored from the state file is undecided unless its matches are recomputed from its definition")
+			f := p.Fn("manager.New")
+			unc := p.Field("query", "TagDetails", "Uncertain")
+			mat := p.Field("query", "TagDetails", "Matches")
+			tagT := p.Named("manager", "tag")
+			all := p.Field("manager", "Manager", "allStreams")
+			if f == nil || unc == nil || mat == nil || tagT == nil || all == nil {
+				p.anchorFail("manager.New / query.TagDetails.Uncertain,Matches / manager.tag / Manager.allStreams")
+				return
+			}
+			info := f.Pkg.TypesInfo
+			n := 0
+			// (1) the literal: Uncertain initialised with Manager.allStreams
+			ast.Inspect(f.Body(), func(x ast.Node) bool {
+				cl, ok := x.(*ast.CompositeLit)
+				if !ok {
+					return true
+				}
+				if nt := namedOf(info.TypeOf(cl)); nt == nil || nt.Obj().Name() != "TagDetails" {
+					return true
+				}
+				for _, el := range cl.Elts {
+					kv, ok := el.(*ast.KeyValueExpr)
+					if !ok {
+						continue
+					}
+					if k, ok := kv.Key.(*ast.Ident); ok && info.Uses[k] == types.Object(unc) {
+						n++
+						se, isSel := ast.Unparen(kv.Value).(*ast.SelectorExpr)
+						r.Check(isSel && info.Uses[se.Sel] == types.Object(all), rule, "New: a restored tag starts with Uncertain = all streams", p.Pos(kv), "Uncertain: mgr.allStreams", "a tag restored from the state file does not start fully undecided: matches saved before its first evaluation are served as final")
+					}
+				}
+				return true
+			})
+			// (2) every emptying of Uncertain is paired with a recomputation of Matches in the same block
+			inspectShallow(f.Body(), func(x ast.Node) bool {
+				blk, ok := x.(*ast.BlockStmt)
+				if !ok {
+					return true
+				}
+				for _, st := range blk.List {
+					as, ok := st.(*ast.AssignStmt)
+					if !ok || len(as.Lhs) != 1 || len(as.Rhs) != 1 {
+						continue
+					}
+					se, ok := ast.Unparen(as.Lhs[0]).(*ast.SelectorExpr)
+					if !ok || info.Uses[se.Sel] != types.Object(unc) {
+						continue
+					}
+					if cl, isLit := ast.Unparen(as.Rhs[0]).(*ast.CompositeLit); !isLit || len(cl.Elts) != 0 {
+						continue
+					}
+					base := types.ExprString(se.X)
+					n++
+					recomputed := false
+					for _, st2 := range blk.List {
+						a2, ok := st2.(*ast.AssignStmt)
+						if !ok || len(a2.Lhs) != 1 || len(a2.Rhs) != 1 {
+							continue
+						}
+						s2, ok := ast.Unparen(a2.Lhs[0]).(*ast.SelectorExpr)
+						if ok && info.Uses[s2.Sel] == types.Object(mat) && types.ExprString(s2.X) == base {
+							recomputed = true
+						}
+					}
+					r.Check(recomputed, rule, fmt.Sprintf("New: %s.Uncertain emptied (line +%d)", base, lineOf(p.Fset, as)-lineOf(p.Fset, f.Node())), p.Pos(as), "the same block assigns "+base+".Matches from the parsed definition", "the tag is declared decided with the matches that were read from the state file: after a kill between the acknowledgement of AddTag/UpdateTag and the end of the first tagging job these are empty or stale, and nothing re-evaluates them")
+				}
+				return true
+			})
+			r.Floor(rule, 2, n)
+		})
+}
